@@ -127,6 +127,10 @@ def w_circuit_history(ctx, rng, idx):
     seq = [(['qft', 'iqft'][int(rng.integers(0, 2))], int(rng.integers(1, 13))) for _ in range(int(rng.integers(2, 5)))]
     if idx % 2 == 0:
         seq[0] = (seq[0][0], int(rng.integers(9, 13)))
+    if idx % 3 == 1:
+        # registers far beyond a dense vector (the gate groups stay small trains): 17-128 qubits, decided structurally (finite entries, exact
+        # unitarity from the cores)
+        seq.append((['qft', 'iqft'][int(rng.integers(0, 2))], int([17, 33, 63, 64, 65, 66, 70, 96, 128][int(rng.integers(0, 9))])))
     ctx.describe({'model': 'qft/iqft history', 'calls': [list(sq) for sq in seq]})
     for (name, n) in seq:
         call('models.' + name, getattr(mdl, name), n, prop=P, tags=['model=' + name, 'history'])
